@@ -14,7 +14,7 @@ def prop_of(e):
     if e["op"] == "bigmut":
         return "C03"
     if e["op"] == "big":
-        return "C04" if e.get("layout") else "C01"
+        return "C04" if e.get("layout") else ("C01" if seq else "C02")
     if not e.get("valid"):
         return "C03"
     if e.get("layout"):
